@@ -170,10 +170,20 @@ func checkText(c Case, st *core.Stats) error {
 			encs = append(encs, enc{"Text(" + string(f) + ")", x.Text(f), true})
 		}
 		mt, err := x.MarshalText()
+		// a second call on another value must not disturb the bytes returned by the first
+		other := c.Dirty.Apd()
+		mt2, _ := other.MarshalText()
+		_, _, co1, _ := x.Decompose(nil)
+		co1s := string(co1)
+		_, _, _, _ = other.Decompose(nil)
+		if string(co1) != co1s {
+			encs = append(encs, enc{"Decompose-result-overwritten-by-a-later-call", "", true})
+		}
+		_ = mt2
 		if err != nil {
 			encs = append(encs, enc{"MarshalText-error:" + err.Error(), "", true})
 		} else {
-			encs = append(encs, enc{"MarshalText", string(mt), true})
+			encs = append(encs, enc{"MarshalText (read after a second MarshalText call)", string(mt), true})
 		}
 		v, err := (*x).Value()
 		if s, ok := v.(string); ok && err == nil {
